@@ -29,7 +29,7 @@ STUBS = [
 ]
 OUTSIDE = ['SSE emitters (need a real event loop for the disconnect watcher)', 'custom response classes', 'more than 2 stream chunks',
            'media handlers other than JSON']
-BUDGET = {'quick': 300, 'thorough': 1800}
+BUDGET = {'quick': 300, 'thorough': 900}
 
 LISTED = set(_kf()[0].get('C05', {}))
 
